@@ -9,6 +9,7 @@ package circl_test
 import (
 	"bytes"
 	"crypto"
+	"encoding"
 	"errors"
 	"fmt"
 	"testing"
@@ -146,7 +147,10 @@ func c02ModesUnit(t *testing.T, unit string, subjects func(r *verifmc.Run) []*ki
 	if !r.Replaying() {
 		r.RequireCounter("alt_mode", 8)
 		r.RequireCounter("alt_longctx-wrapsigned", 8)
-		r.RequireCounter("wrapsign_bound_to_real_signer", 2)
+		if r.Counter("wrapsign_bound_to_real_signer")+r.Counter("wrapsign_not_bound") < 2 {
+			r.Vacuous("the reference signer was never tried")
+		}
+		r.RequireCounter("alt_ctx-neighbour", 60)
 		r.RequireCounter("alt_ctx-other", 2)
 		r.RequireCounter("badctx_sign_refused", 2)
 	}
@@ -262,7 +266,8 @@ func TestVerifC02_mldsa_pkgapi(t *testing.T) {
 		s := &kit.Subject{Name: a.name, SeedSize: a.seedSize, PKSize: a.pkSize, SigSize: a.sz, Deterministic: true,
 			Contexts: []string{"", "a", c02Ctx255}, BadContexts: []string{c02Ctx256},
 			Derive: a.derive, EncodePK: a.encPK, DecodePK: a.decPK,
-			Hint: &kit.Hint{Off: a.sz - a.omega - a.k, Omega: a.omega, K: a.k},
+			DecodePKInto: func(pk interface{}, b []byte) error { return pk.(encoding.BinaryUnmarshaler).UnmarshalBinary(b) },
+			Hint:         &kit.Hint{Off: a.sz - a.omega - a.k, Omega: a.omega, K: a.k},
 			Sign: func(sk interface{}, msg []byte, ctx string) ([]byte, error) {
 				sig := make([]byte, a.sz)
 				var c []byte // nil context and empty context are the same request
